@@ -14,15 +14,19 @@ Full statement (DESIGN 4/C01), for every template `pt` and every `to_single_wave
       ∃ P, denoteTop pt params mm cm = .ok P ∧ channels prog = P.chanNames ∧
         ∀ c ∈ P.chanNames, ∀ t, 0 ≤ t → t < P.dur → prog.sample c t = some ((P.val c).at t)
 
-Proved here (`_partial`): the statement for the stage-1 constructor subset `Stage1` (constant and function
-atoms composed by sequencing, repetition, indexed iteration and parameter / channel / measurement mapping),
-without a global transformation and without `to_single_waveform`, for programs all of whose pieces have
-positive duration, *given* that the denotation exists (`denoteTop … = .ok P`; the existence of `P` is not
-proved: the denotation additionally demands affine function expressions that evaluate, and equal channel sets
-of sequenced parts).  Table / point / multi-channel / arithmetic atoms, parallel
-channels, scalar arithmetic, time reversal and the single-waveform collapse are covered by the
-correspondence + judge only; `builder_correct_over_atoms` shows that the builder part of the proof does not
-depend on which atoms are used.
+Proved here (`_partial`, see notes/C01.md for the table): the statement
+* for `Stage3` — constant, function, table, point atoms and `AtomicMultiChannelPT`s of them, composed by sequencing,
+  repetition, indexed iteration, mapping, `ParallelChannelPT` and `ArithmeticPT` (scalar) in any nesting — exactly
+  outside the class of PF-11 (`compile_correct_partial`), under any global transformation
+  (`compile_correct_under_trafo`, `compile_correct_global_trafo_partial`) and for every `to_single_waveform` set
+  (`compile_correct_single_partial`, through C05's `collapse_invariant_partial`);
+* for `Stage1R` — constant and function atoms with `TimeReversalPT` in any nesting — with the judge's tolerance at
+  junctions inside reversed parts (`compile_correct_reversal_partial`);
+always for programs all of whose pieces have positive duration and *given* that the denotation exists
+(`denoteTop … = .ok P`; its existence is not proved: the denotation additionally demands affine function expressions
+that evaluate, and equal channel sets of sequenced parts).  `ArithmeticAtomicPT`, wrappers in atomic context and time
+reversal over table-like atoms are covered by the correspondence + judge only; `builder_correct_over_atoms` shows
+that the builder part of the proof does not depend on which atoms are used.
 -/
 namespace QP.Props.C01
 open QP.PT
